@@ -300,7 +300,21 @@ def high_level(script, rel, mode, variants=False):
             m3 = dns.message.from_wire(wire, origin=org, one_rr_per_rrset=True)
             m4 = dns.message.from_wire(wire + b"\x00\x07junk", origin=org, ignore_trailing=True)
             m5 = dns.message.from_wire(wire, origin=org, question_only=True)
-            e["var"] = {"onerr": proj_message(m3, rel), "wire1": list(m3.to_wire(want_shuffle=False)),
+            m6 = dns.message.from_wire(wire, origin=org, continue_on_error=True)
+            try:
+                m7 = dns.message.from_wire(wire, origin=org, raise_on_truncation=True)
+                trunc = False
+            except dns.message.Truncated as tex:
+                m7 = tex.message()
+                trunc = True
+            if rel:     # origin passed as an argument instead of being an attribute of the message
+                m.origin = None
+                wireo = list(m.to_wire(origin=ORIGIN, max_size=65535, want_shuffle=False))
+                m.origin = ORIGIN
+            else:
+                wireo = list(wire)
+            e["var"] = {"coe": proj_message(m6, rel), "nerr": len(m6.errors), "rot": proj_message(m7, rel), "trunc": trunc,
+                        "wireo": wireo, "onerr": proj_message(m3, rel), "wire1": list(m3.to_wire(want_shuffle=False)),
                         "trail": proj_message(m4, rel), "qonly": proj_message(m5, rel),
                         "wirep2": list(m2.to_wire(want_shuffle=False, prepend_length=True))}
         e["res"] = "ok"
